@@ -1122,11 +1122,14 @@ class SymMixin:
             w = run.fresh_wire()
             term = ("wire", w, s.uid)
             run.emit("read", s, n, term, site)
-            ln = None
+            if self.stream_fault_hook is not None and s.kind == "param":
+                self.stream_fault_hook(run, s, "read", term, site)
             return Sym(term, "bytes", raw_read=True, size=n, stream=s)
         if name == "write":
             res = ("write-result", s.uid, len(run.effects))
             run.emit("write", s, a[0] if a else None, res, site)
+            if self.stream_fault_hook is not None and s.kind == "param":
+                self.stream_fault_hook(run, s, "write", res, site)
             return Sym(res, "int", lo=0)
         if name == "getvalue":
             run.emit("getvalue", s, site)
